@@ -53,6 +53,13 @@ class C07(Check):
         traces, metas, nexh = tcpcl_rx.executions(tier, seed)
         codec_trace = tcpcl_codec_cases.trace(tier)
         self.extra_coverage = {'streams_cut_exhaustively': nexh, 'codec_cases': (len(codec_trace) - 1) // 3}
+        # what two real endpoints write when timers, large messages and partial socket writes meet: every octet
+        # written must still decode, message by message, with the independent decoder
+        from harness.drivers import tcpcl_timers
+        (ktr, kme) = tcpcl_timers.keepalive_mid_drain_executions(tier, seed)
+        self.extra_coverage['keepalive_mid_drain_runs'] = len(ktr)
+        traces += ktr
+        metas += [dict(m, victim='both', stream='pair', chunks=repr(sorted(m.items()))) for m in kme]
         return [('TcpclTrace', traces, metas),
                 ('CodecTrace', [codec_trace], [{'codec': 'tcpcl', 'cases': (len(codec_trace) - 1) // 3}])]
 
